@@ -229,6 +229,51 @@ Definition foreach (sl : slist) (stop : nat) : list nat * Z :=
            else (items sl, 0%Z)
   end.
 
+(** cstl_slist_foreach with a visitor that changes the lists: for the element
+    [e] it is shown it calls cstl_slist_pop_front on the traversed list (and
+    notes whether that returned [e]), then cstl_slist_push_back(other, e);
+    it answers [stop] at its [stop]-th call (0 = never).
+
+      c = sl->h.n;
+      while (c != NULL && res == 0) { n = c->n; res = visit(elem(c), p); c = n; }
+
+    The successor [n] is read from the traversed chain *before* the visitor
+    runs ([next_of] on the chain as it is at that moment); the visitor is the
+    model's own [pop_front] and [push_back].  [None] from [next_of]: [c] is not
+    a node of the traversed chain any more, so this model does not describe
+    [c->n] ([Flt]).  Running out of [fuel] stands for a loop that does not end.
+    Result: both lists, the visit log, the result of foreach, the number of
+    visits in which pop_front did not return the visited element. *)
+Fixpoint fmove_loop (fuel : nat) (c : option nat) (sl dl : slist) (stop k : nat)
+         (acc : list nat) (bad : nat) : res (slist * slist * list nat * Z * nat) :=
+  match c with
+  | None => Ok (sl, dl, rev acc, 0%Z, bad)
+  | Some e =>
+    match fuel with
+    | O => Flt
+    | S f =>
+      match next_of e (items sl) with                   (* n = c->n *)
+      | None => Flt
+      | Some n =>
+        match pop_front sl with                          (* visitor: pop_front(sl) ... *)
+        | Flt => Flt
+        | Ok (sl1, got) =>
+          let bad' := if opt_eqb got (Some e) then bad else S bad in
+          match push_back dl e with                      (* ... push_back(dl, e) *)
+          | Flt => Flt
+          | Ok dl1 =>
+            if (0 <? stop)%nat && Nat.eqb (S k) stop
+            then Ok (sl1, dl1, rev (e :: acc), Z.of_nat stop, bad')
+            else fmove_loop f n sl1 dl1 stop (S k) (e :: acc) bad'   (* c = n *)
+          end
+        end
+      end
+    end
+  end.
+
+Definition fmove (sl dl : slist) (stop : nat) : res (slist * slist * list nat * Z * nat) :=
+  fmove_loop (S (N.to_nat (count sl))) (hd_error (items sl)) sl dl stop 0 [] 0.
+
 (** cstl_slist_clear: the callback log, then re-initialisation.  Event view
     used by C15: for every node the successor link is read ([EvRead]) before
     the callback ([EvCall]) and never after. *)
@@ -252,7 +297,8 @@ Inductive op :=
 | EraseAfter (l b : nat) | PopFront (l : nat)
 | Front (l : nat) | Back (l : nat) | Size (l : nat)
 | Reverse (l : nat) | Sort (l : nat) | Concat (d s : nat) | Swap (a b : nat)
-| Foreach (l stop : nat) | Clear (l : nat).
+| Foreach (l stop : nat) | Clear (l : nat)
+| FMove (l d stop : nat).   (* foreach over l with the pop_front + push_back(d) visitor *)
 
 Definition sys := list slist.
 
@@ -328,6 +374,14 @@ Section Step.
     | Clear l =>
       with_list s l (fun sl =>
         let '(log, sl') := clear sl in Done (upd s l sl') (zids log))
+    | FMove l d stop =>
+      if Nat.eqb l d then Precond else
+      with_list s l (fun sl => with_list s d (fun dl =>
+        match fmove sl dl stop with
+        | Ok (sl', dl', log, r, bad) =>
+          Done (upd (upd s l sl') d dl') (r :: Z.of_nat bad :: zids log)
+        | Flt => Fault
+        end))
     end.
 End Step.
 
